@@ -368,8 +368,8 @@ class Interp:
             rest = v.items[v.pos:]
             v.pos = len(v.items)
             return rest
-        if isinstance(v, str) and getattr(h, 'symbolic_strings', False):
-            return list(v)
+        if isinstance(v, str):
+            return list(v)              # a text iterates over its characters
         if isinstance(v, (set, frozenset)):
             return sorted(v, key=repr)
         if h.is_list(v):
@@ -554,6 +554,8 @@ class Interp:
             if isinstance(base, Ref) and ('.' + e.attr) in h.hooks and isinstance(e.ctx, ast.Load):
                 # a method the scenario supplies, taken as a value (`iter(self.readline, b'')`): bound to its receiver
                 return ('partial', ('hook', '.' + e.attr), [base], {})
+            if e.attr == '__contains__' and isinstance(base, (set, frozenset, str, tuple)) and not (isinstance(base, tuple) and base and isinstance(base[0], str) and base[0] in ('regex', 'record', 'partial', 'class', 'hook')):
+                return ('partial', ('hook', '#contains'), [base], {})       # the membership test of a builtin container, as a value
             if isinstance(base, tuple) and base and base[0] == 'regex':
                 return ('regexmethod', base, e.attr)
             if isinstance(base, tuple) and base and base[0] == 'record' and e.attr in base[2]:
@@ -714,7 +716,7 @@ class Interp:
             if h.is_list(base) or isinstance(base, (list, tuple)):
                 items = h.items(base) if h.is_list(base) else list(base)
                 if isinstance(key, slice):
-                    return h.new_list(items[key])
+                    return tuple(items[key]) if isinstance(base, tuple) else h.new_list(items[key])      # a slice has the type of what is sliced
                 if isinstance(key, int):
                     try:
                         return items[key]
@@ -902,6 +904,30 @@ class Interp:
             _ = o_
         if isinstance(fn, ast.Name) and fn.id in ('bool',) and len(args) == 1:
             return self.truth(args[0])
+        if isinstance(fn, ast.Name) and fn.id == 'int' and 'int' not in env and 'int' not in h.hooks and len(args) == 1 and not kwargs \
+                and isinstance(args[0], (str, int)) and not isinstance(args[0], bool):
+            try:
+                return int(args[0])          # int() of a decided text / number
+            except ValueError:
+                raise Raised('ValueError', h.version, e.lineno)
+        if norm(fn) in ('re.findall', 're.split', 're.match', 're.search', 're.fullmatch', 're.sub') and getattr(h, 'native_regex', False) \
+                and all(isinstance(a_, (str, int)) for a_ in args) and all(isinstance(v_, (str, int)) for v_ in kwargs.values()):
+            import re as _re
+            r_ = getattr(_re, fn.attr)(*args, **kwargs)       # a constant pattern on a decided text: CPython's engine decides
+            return h.new_list(r_) if isinstance(r_, list) else r_
+        if norm(fn) in ('itertools.groupby', 'groupby') and norm(fn) not in env and 1 <= len(args) <= 2 and set(kwargs) <= {'key'}:
+            # groupby(xs, key): maximal runs of consecutive items with equal key, as (key, list of the run)
+            kf_ = args[1] if len(args) == 2 else kwargs.get('key')
+            out_, cur_k, cur_ = [], None, None
+            for x_ in self.seq(args[0]):
+                k_ = self.apply(kf_, [x_]) if kf_ is not None else x_
+                if cur_ is not None and self.same_value(k_, cur_k):
+                    cur_.append(x_)
+                else:
+                    cur_ = [x_]
+                    cur_k = k_
+                    out_.append((k_, cur_))
+            return [(k_, list(v_)) for k_, v_ in out_]
         if isinstance(fn, ast.Name) and fn.id in ('max', 'min') and fn.id not in env and fn.id not in h.hooks and args and set(kwargs) <= {'default'}:
             vals = self.seq(args[0]) if len(args) == 1 else list(args)
             if not vals:
@@ -1301,6 +1327,8 @@ class Interp:
                 if init is not None:
                     self.call(Closure(init.node, {}, ref, init.cls), list(args), kwargs)
                 return ref
+        if isinstance(f, tuple) and f and f[0] == 'hook' and f[1] == '#contains':
+            return args[1] in args[0]
         if isinstance(f, tuple) and f and f[0] == 'hook':
             return h.hooks[f[1]](self, list(args), kwargs)
         if isinstance(f, tuple) and f and f[0] == 'namedtuple':
@@ -1593,6 +1621,14 @@ class Interp:
             for t in st.targets:
                 if isinstance(t, ast.Subscript):
                     base = self.ev(t.value, env, cls)
+                    if h.is_list(base):
+                        k_ = self.ev(t.slice, env, cls)          # del xs[i] / del xs[i:j]
+                        h.touch(base.name)
+                        try:
+                            del h.items(base)[k_]
+                        except IndexError:
+                            raise Raised('IndexError', h.version, st.lineno)
+                        continue
                     h.dict_del(base, self.ev(t.slice, env, cls), st.lineno)
                 elif isinstance(t, ast.Name):
                     env.pop(t.id, None)
